@@ -198,6 +198,17 @@ pub struct Compact {
     heap: Vec<Word>,
     high_water: usize,
     stack_sparse: Vec<(u32, Word)>,
+    /// indices of stack words equal to `SCRUBBED` (the value the searches write over dead slots)
+    stack_scrubbed: Vec<u16>,
+}
+
+/// The undefined word the searches write over everything that is dead at a statement boundary.
+pub const SCRUBBED: Word = Word::undef(0x0dead_0000);
+
+impl Compact {
+    pub fn approx_bytes(&self) -> usize {
+        (self.regs.len() + self.heap.len()) * std::mem::size_of::<Word>() + self.stack_sparse.len() * std::mem::size_of::<(u32, Word)>() + self.stack_scrubbed.len() * 2 + 120
+    }
 }
 
 impl AnyState {
@@ -208,31 +219,42 @@ impl AnyState {
             AnyState::Rv(s) => &s.regs,
         }
     }
-    pub fn compact(&self) -> Compact {
-        let filler = Mem::with_stack(0, 1).stack[0];
+    /// Snapshot relative to `template` (the state the search started from): only the stack words
+    /// that differ from the template's are stored.
+    pub fn compact(&self, template: &AnyState) -> Compact {
         let mem = self.mem();
+        let tstack = &template.mem().stack;
+        assert!(mem.stack.len() == tstack.len() && mem.stack.len() <= u16::MAX as usize, "compact snapshot: stack regions differ");
         Compact {
             regs: self.regs_slice().to_vec(),
             flags_defined: false,
-            heap: mem.heap.clone(),
+            heap: {
+                // the untouched tail of the heap region is not stored
+                let filler = *mem.heap.last().expect("heap region");
+                let n = mem.heap.iter().rposition(|w| *w != filler).map_or(0, |i| i + 1);
+                mem.heap[..n].to_vec()
+            },
             high_water: mem.heap_high_water,
-            stack_sparse: mem.stack.iter().enumerate().filter(|(_, w)| **w != filler).map(|(i, w)| (i as u32, *w)).collect(),
+            stack_sparse: mem.stack.iter().zip(tstack.iter()).enumerate().filter(|(_, (w, t))| **w != **t && **w != SCRUBBED).map(|(i, (w, _))| (i as u32, *w)).collect(),
+            stack_scrubbed: mem.stack.iter().zip(tstack.iter()).enumerate().filter(|(_, (w, t))| **w != **t && **w == SCRUBBED).map(|(i, _)| i as u16).collect(),
         }
     }
     /// Rebuilds a full state from a snapshot; `template` supplies everything that never changes
     /// during a search (entry registers, entry stack pointer, region sizes).
     pub fn expand(template: &AnyState, c: &Compact) -> AnyState {
         let mut st = template.clone();
-        let filler = Mem::with_stack(0, 1).stack[0];
         {
             let mem = st.mem_mut();
-            mem.heap.clone_from(&c.heap);
+            let filler = *mem.heap.last().expect("heap region");
+            let n = c.heap.len();
+            mem.heap[..n].copy_from_slice(&c.heap);
+            mem.heap[n..].fill(filler);
             mem.heap_high_water = c.high_water;
-            for w in mem.stack.iter_mut() {
-                *w = filler;
-            }
             for (i, w) in &c.stack_sparse {
                 mem.stack[*i as usize] = *w;
+            }
+            for i in &c.stack_scrubbed {
+                mem.stack[*i as usize] = SCRUBBED;
             }
         }
         match &mut st {
